@@ -19,19 +19,33 @@ func genWideMergeCase(t *rapid.T) planCase {
 	w := &spec.WideSpec{N: n, Period: rapid.SampledFrom([]int{1, 2, 0}).Draw(t, "period"), Every: rapid.SampledFrom([]int{0, 1, 2}).Draw(t, "every"),
 		Locs: rapid.Bool().Draw(t, "locs"), DV: rapid.Bool().Draw(t, "dv")}
 	wide := spec.MergePlan{Leaf: &spec.BatchSpec{Wide: w}, Mmap: rapid.Bool().Draw(t, "wideMmap")}
+	zfEmpty := rapid.Bool().Draw(t, "zfEmpty")
+	// the small documents use either the wide batch's own dense terms (so the field's LAST
+	// term is a dense one) or terms sorting after them
+	termSet := rapid.SampledFrom([][]string{{"other", "zz", "all", "p0"}, {"all", "p0"}, {"all"}}).Draw(t, "smallTerms")
 	// small neighbours: same field, but (mostly) without the wide terms
 	small := func(label string) spec.MergePlan {
 		nd := rapid.IntRange(1, 6).Draw(t, label+"n")
 		b := &spec.BatchSpec{}
 		for i := 0; i < nd; i++ {
 			f := spec.FieldSpec{Name: spec.WideFieldName, Type: 't', DV: w.DV, Len: 1}
-			term := rapid.SampledFrom([]string{"other", "zz", "all", "p0"}).Draw(t, fmt.Sprintf("%sterm%d", label, i))
+			term := rapid.SampledFrom(termSet).Draw(t, fmt.Sprintf("%sterm%d", label, i))
 			tok := spec.TokenSpec{Term: spec.B(term), Freq: 1}
 			if w.Locs {
 				tok.Locs = []spec.LocSpec{{Pos: 1, Start: 0, End: 2}}
 			}
 			f.Tokens = []spec.TokenSpec{tok}
-			b.Docs = append(b.Docs, spec.DocSpec{ID: spec.B(fmt.Sprintf("%s%d", label, i)), Fields: []spec.FieldSpec{f}})
+			doc := spec.DocSpec{ID: spec.B(fmt.Sprintf("%s%d", label, i)), Fields: []spec.FieldSpec{f}}
+			if zfEmpty && rapid.Bool().Draw(t, fmt.Sprintf("%szf%d", label, i)) {
+				// a later field whose FIRST term is the empty term, with few hits, right
+				// after a field whose last term may have >= 1024 hits
+				zt := spec.TokenSpec{Term: "", Freq: 1 + i%3}
+				for j := 0; j < zt.Freq; j++ {
+					zt.Locs = append(zt.Locs, spec.LocSpec{Pos: j + 1, Start: j, End: j + 1})
+				}
+				doc.Fields = append(doc.Fields, spec.FieldSpec{Name: "zf", Type: 't', Len: zt.Freq, Tokens: []spec.TokenSpec{zt}})
+			}
+			b.Docs = append(b.Docs, doc)
 		}
 		return spec.MergePlan{Leaf: b, Mmap: rapid.Bool().Draw(t, label+"mmap")}
 	}
